@@ -14,6 +14,10 @@ CHECKS = {
    text='bounded symbolic execution of the real get_http_range / OnDemandMedia.get with range positions and content length as solver variables; RFC 7233 oracle; every path enumerated, every obligation an SMT validity query',
    note='header families: well-formed single ranges (3 shapes + case/whitespace variants) with unbounded positions, L <= 2^40; flask request is a stand-in dict; werkzeug header parsing outside the claim',
    ref='DESIGN.md 5 C13'),
+ 'C08': dict(
+   text='DashTiming executed on a fully symbolic calendar instant (year..microsecond are solver variables, calendar arithmetic relational), symbolic depth and explicit start; coherence obligations as SMT validity queries on every path; monotonicity by a one-day-window induction step',
+   note='now in 1971..2200 UTC; minimumUpdatePeriod from a concrete catalogue (it divides a symbolic value); reference (segment_duration, timescale) from the layout catalogue; float total_seconds() modelled as exact rational with error bound',
+   ref='DESIGN.md 5 C08'),
  'C20': dict(
    text='inductive step over an arbitrary reader state satisfying the representation invariant (built on the real BufferedReader class), one operation with symbolic arguments, file content abstracted to index ropes so equality holds for every content; every LRU eviction order through a nondeterministic clock; plus 2-operation sequences from the constructor state',
    note='bounds: buffer sizes / window / offset ranges listed in evidence.bounds; underlying file modelled as a raw file of symbolic length (pysx.rope.SymFile); read(n) for n >= -1, peek(n) for n >= 1',
